@@ -81,8 +81,12 @@ var errTooDeep = errors.New("bencoded value nested too deeply")
 type depthLimiter struct {
 	r     io.Reader
 	depth int
-	state int   // 0: start of a value, 1: integer, 2: string length, 3: string body, 4: done
-	n     int64 // string length read so far / bytes of body left
+	state int // 0: start of a value or key, 1: integer, 2: string length, 3: string body, 4: done
+	// the string length being read, as strconv.ParseInt will see it
+	n      int64
+	digits int
+	neg    bool
+	bad    bool
 }
 
 // LimitBencodeDepth returns a reader that passes r's data through and fails
@@ -106,24 +110,32 @@ func (d *depthLimiter) Read(p []byte) (int, error) {
 	for _, c := range p[:n] {
 		switch d.state {
 		case 0:
-			switch {
-			case c == 'l' || c == 'd':
+			switch c {
+			case 'l', 'd':
 				d.depth++
 				if d.depth > maxBencodeDepth {
 					return 0, errTooDeep
 				}
-			case c == 'e':
+			case 'e':
 				d.depth--
 				if d.depth <= 0 {
 					d.state = 4
 				}
-			case c == 'i':
+			case 'i':
 				d.state = 1
-			case c >= '0' && c <= '9':
-				d.state = 2
-				d.n = int64(c - '0')
 			default:
-				d.state = 4 // malformed; the decoder will say so
+				// A string: everything up to the colon is its length.
+				// The decoder hands that to strconv.ParseInt, which
+				// takes a sign; where the decoder refuses what we
+				// accept, it stops there and recurses no further.
+				d.state = 2
+				d.n, d.digits = 0, 0
+				d.neg, d.bad = c == '-', false
+				if c >= '0' && c <= '9' {
+					d.n, d.digits = int64(c-'0'), 1
+				} else if c != '-' && c != '+' {
+					d.bad = true
+				}
 			}
 		case 1:
 			if c == 'e' {
@@ -131,7 +143,10 @@ func (d *depthLimiter) Read(p []byte) (int, error) {
 			}
 		case 2:
 			if c == ':' {
-				if d.n == 0 {
+				if d.bad || d.digits == 0 || d.n > 1<<31-1 ||
+					(d.neg && d.n != 0) {
+					d.state = 4 // the decoder fails here
+				} else if d.n == 0 {
 					d.endValue()
 				} else {
 					d.state = 3
@@ -140,8 +155,9 @@ func (d *depthLimiter) Read(p []byte) (int, error) {
 				if d.n < 1<<40 {
 					d.n = d.n*10 + int64(c-'0')
 				}
+				d.digits++
 			} else {
-				d.state = 4
+				d.bad = true
 			}
 		case 3:
 			d.n--
